@@ -1,0 +1,171 @@
+//go:build verif
+
+// Contracts for the fvc verification-condition generator in /verif (comment-only file; it adds no
+// code to the package and is only seen with -tags verif).
+//
+// C08: each error that the handler chain returns to the framework (including the framework's own 404/405)
+// is delivered exactly once to exactly one error handler: that of the innermost mounted sub-application
+// that configured one and whose mount prefix contains the request path on a segment boundary, otherwise
+// the root application's. The choice is a function of the request path and the mount structure alone; the
+// status of a framework error becomes the response status under the default handler; a failing error
+// handler yields a 500.
+//
+// Clauses of this property that live in contracts owned by the C01/C02 block of zz_contracts_verif.go:
+//   (*App).next, (*App).nextCustom:
+//     ensures [C08] error-is-returned-not-handled: !called((*App).ErrorHandler) && ehCalls == old(ehCalls)
+//     ensures [C08] own-404-or-405: !result0 ==> typeis(result1, *Error) && (unbox(result1, *Error) == ErrMethodNotAllowed || unbox(result1, *Error).Code == StatusNotFound)
+//   NewError: ensures carries-code: result.Code == code
+// and in (*App).serverErrorHandler (C07):
+//     atcall (*App).ErrorHandler: [C08] delivered-once: ehCalls == 0
+//     ensures [C08] exactly-once: ehCalls == old(ehCalls) + 1
+//     ensures [C08] failing-handler-yields-500: ehRet != nil ==> sentStatus == StatusInternalServerError
+
+package fiber
+
+//@ props C08
+
+// ---- the scoping rule of the property -----------------------------------------------------------------
+// A mount prefix p contains the path on a segment boundary: p is a prefix of the path that ends where a
+// segment of the path ends (the whole path, or followed by '/', or p itself ends in '/': the root mount "/").
+//@ fn onBoundary(path string, p string) bool = len(p) > 0 && len(path) >= len(p) && path[:len(p)] == p && (len(path) == len(p) || path[len(p)] == '/' || p[len(p)-1] == '/')
+
+// Key k of the mount list competes for the error: a mounted sub-app ("" is the app itself) that configured
+// its own handler and whose prefix contains the path. The innermost one is the one with the longest prefix.
+//@ macro scoped(app, k, path) = k != "" && indom(app.mountFields.appList, k) && app.mountFields.appList[k].configured.ErrorHandler != nil && onBoundary(path, k)
+
+// What New() establishes for every app and mounting preserves: the list exists, holds no nil app, and every
+// app has an effective handler (config.ErrorHandler is the configured one or DefaultErrorHandler).
+//@ macro wfMounts(app) = app.mountFields != nil && app.mountFields.appList != nil && forallS(k, indom(app.mountFields.appList, k) ==> app.mountFields.appList[k] != nil && app.mountFields.appList[k].config.ErrorHandler != nil)
+
+// ---- ghost record of the error-handler invocations of the current request ---------------------------
+//@ ghost ehCalls int
+//@ ghost ehFn ref
+//@ ghost ehErr ref
+//@ ghost ehRet ref
+
+// A configured error handler is user code: it may write any heap location and the response; the call is
+// recorded in the ghost state above (how many so far, which handler, with which error, what it returned).
+//@ func Config.ErrorHandler(c, err) assumed
+//@   modifies ehCalls, ehFn, ehErr, ehRet, sentStatus, respHdr, respSet, heap
+//@   ensures ehCalls == old(ehCalls) + 1 && ehFn == fnvalue && ehErr == err && ehRet == result
+
+// ErrorHandler: exactly one handler runs, once, with the error; which one is fixed by the scoping rule.
+// `range` over the mount list is modelled as an arbitrary order (seen(k) = keys visited so far), so the
+// postcondition is provable only if the choice does not depend on the order. The rank variable of the
+// loop (source name mountedPrefixParts) must be the length of the best prefix seen so far, which is then
+// path[:rank] - that is what makes the invariant free of existentials.
+// mount-tree-wf is start-up state that is frozen while requests are served (assumed, not a call-site obligation).
+//@ func (*App).ErrorHandler
+//@   assumes mount-tree-wf: wfMounts(app)
+//@   modifies ehCalls, ehFn, ehErr, ehRet, sentStatus, respHdr, respSet, heap
+//@   loop 1
+//@     invariant rank-in-range: 0 <= mountedPrefixParts && mountedPrefixParts <= len(reqPath(ctx, epoch))
+//@     invariant none-yet: mountedPrefixParts == 0 ==> mountedErrHandler == nil
+//@     invariant best-is-seen: mountedPrefixParts > 0 ==> seen(reqPath(ctx, epoch)[:mountedPrefixParts])
+//@     invariant best-is-scoped: mountedPrefixParts > 0 ==> scoped(app, reqPath(ctx, epoch)[:mountedPrefixParts], reqPath(ctx, epoch))
+//@     invariant best-handler: mountedPrefixParts > 0 ==> mountedErrHandler == app.mountFields.appList[reqPath(ctx, epoch)[:mountedPrefixParts]].config.ErrorHandler
+//@     invariant no-longer-scoped-seen: forallS(j, seen(j) && scoped(app, j, reqPath(ctx, epoch)) ==> len(j) <= mountedPrefixParts)
+//@   ensures exactly-one-handler-call: ehCalls == old(ehCalls) + 1
+//@   ensures handler-gets-the-error: ehErr == err
+//@   ensures handler-result-returned: result == ehRet
+//@   ensures innermost-scoped-else-root: existsS(k, old(scoped(app, k, reqPath(ctx, epoch))) && ehFn == old(app.mountFields.appList[k].config.ErrorHandler) && forallS(j, old(scoped(app, j, reqPath(ctx, epoch))) ==> len(j) <= len(k))) ||
+//@ ..   (ehFn == old(app.config.ErrorHandler) && forallS(k, !old(scoped(app, k, reqPath(ctx, epoch)))))
+//@   ensures choice-is-a-function-of-path-and-mounts: forallS(k, old(scoped(app, k, reqPath(ctx, epoch))) && forallS(j, old(scoped(app, j, reqPath(ctx, epoch))) ==> len(j) <= len(k)) ==> ehFn == old(app.mountFields.appList[k].config.ErrorHandler))
+
+// ---- the default handler: the status of a framework error becomes the response status ---------------
+// isFiberErr/fiberErrCode: what errors.As(err, &e) with e *Error finds (mw_C08.spec).
+//@ func DefaultErrorHandler
+//@   ensures framework-error-status: isFiberErr(err) ==> sentStatus == fiberErrCode(err, epoch)
+//@   ensures other-error-500: !isFiberErr(err) ==> sentStatus == StatusInternalServerError
+
+// ---- the funnel: the two request entry points ---------------------------------------------------------
+//@ func (*DefaultCtx).App
+//@   pure
+//@   ensures result == c.app
+
+// SendStatus as seen by the ghost response state of fiber_ctx.spec (the concrete method of Ctx.SendStatus).
+//@ func (*DefaultCtx).SendStatus assumed
+//@   modifies sentStatus, heap
+//@   ensures sentStatus == status
+
+// The error returned by the chain (second result of next; `last((*App).next_1)` names it) is handed to
+// ErrorHandler exactly once iff it is not nil; SendStatus(500) iff that handler itself failed; 501 and no
+// chain for an unknown method (C07). The explicit panic (AcquireCtx handing out a foreign context type) is
+// not part of this property: nosafety panic.
+//@ func (*App).defaultRequestHandler
+//@   props C08 C07 C05
+//@   nosafety panic
+//@   requires fresh-request: rctx != nil && ehCalls == 0 && sentStatus == 0
+//@   atcall (*App).next: [C07] method-known: ctx.methodInt != -1
+//@   atcall (*App).next: [C05] context-state-from-this-request: chainEntry(ctx, rctx)
+//@   atcall (*App).ErrorHandler: only-the-chain-error-once: err != nil && ehCalls == 0
+//@   atcall (*DefaultCtx).SendStatus: 501-unknown-method-500-failed-handler: (status == StatusNotImplemented && ctx.methodInt == -1 && !called((*App).next)) || (status == StatusInternalServerError && catch != nil && catch == ehRet)
+//@   ensures [C07] unknown-method-501: !called((*App).next) ==> sentStatus == StatusNotImplemented
+//@   ensures no-chain-no-handler: !called((*App).next) ==> ehCalls == 0
+//@   ensures error-delivered-exactly-once: called((*App).next) ==> (last((*App).next_1) != nil && ehCalls == 1 && ehErr == last((*App).next_1)) || (last((*App).next_1) == nil && ehCalls == 0)
+//@   ensures failing-handler-yields-500: ehCalls == 1 && ehRet != nil ==> sentStatus == StatusInternalServerError
+
+// The same funnel for custom contexts (all context state is reached through the CustomCtx interface).
+//@ func (*App).customRequestHandler
+//@   props C08 C07
+//@   nosafety panic
+//@   requires fresh-request: rctx != nil && ehCalls == 0 && sentStatus == 0
+//@   atcall (*App).nextCustom: [C07] method-known: last((*App).methodInt) != -1
+//@   atcall (*App).ErrorHandler: only-the-chain-error-once: err != nil && ehCalls == 0
+//@   atcall CustomCtx.SendStatus: 501-unknown-method-500-failed-handler: (status == StatusNotImplemented && last((*App).methodInt) == -1 && !called((*App).nextCustom)) || (status == StatusInternalServerError && catch != nil && catch == ehRet)
+//@   ensures [C07] unknown-method-501: !called((*App).nextCustom) ==> sentStatus == StatusNotImplemented
+//@   ensures no-chain-no-handler: !called((*App).nextCustom) ==> ehCalls == 0
+//@   ensures error-delivered-exactly-once: called((*App).nextCustom) ==> (last((*App).nextCustom_1) != nil && ehCalls == 1 && ehErr == last((*App).nextCustom_1)) || (last((*App).nextCustom_1) == nil && ehCalls == 0)
+//@   ensures failing-handler-yields-500: ehCalls == 1 && ehRet != nil ==> sentStatus == StatusInternalServerError
+
+// ---- the mount structure: every (transitively) mounted sub-app is listed under its full prefix ------
+// ErrorHandler reads the mount structure from app.mountFields.appList (full prefix -> app). Mounting copies the
+// whole list of the sub-app (the sub-app itself is its entry "") below the normalised prefix; the claim is
+// stated at the call of register, the first call after the loop (the calls that follow havoc the heap).
+// joinedPath(prefix, k) is the value of getGroupPath; the sub-app's keys must stay distinct when joined
+// (they are "" or start with '/').
+//@ fn joinedPath(prefix string, path string) string
+//@ func getGroupPath
+//@   pure
+//@   defines result == joinedPath(prefix, path)
+//@   ensures sub-app-itself-at-the-prefix: len(path) == 0 ==> result == prefix
+
+// The normalised mount prefix is the argument with trailing slashes removed, "/" for the root (the case
+// split is outside the quantifiers: an ite term inside them ends up in a trigger, which z3 rejects).
+//@ macro subtreeListed(app, P) = forallS(k, old(indom(subApp.mountFields.appList, k)) ==> indom(app.mountFields.appList, joinedPath(P, k)) && app.mountFields.appList[joinedPath(P, k)] == old(subApp.mountFields.appList[k]))
+//@ macro seenListed(app, P) = forallS(k, seen(k) ==> indom(app.mountFields.appList, joinedPath(P, k)) && app.mountFields.appList[joinedPath(P, k)] == old(subApp.mountFields.appList[k]))
+//@ func (*App).mount
+//@   panics
+//@   requires separate-lists: app.mountFields != nil && app.mountFields.appList != nil && subApp.mountFields != nil && subApp.mountFields.appList != nil && app.mountFields.appList != subApp.mountFields.appList
+//@   requires joined-prefixes-distinct: forallS(a, forallS(b, indom(subApp.mountFields.appList, a) && indom(subApp.mountFields.appList, b) && a != b ==> forallS(p, joinedPath(p, a) != joinedPath(p, b))))
+//@   loop 1
+//@     invariant registered-so-far: (last(@utils.TrimRight) == "" ==> seenListed(app, "/")) && (last(@utils.TrimRight) != "" ==> seenListed(app, last(@utils.TrimRight)))
+//@     invariant nothing-dropped: forallS(k, old(indom(app.mountFields.appList, k)) ==> indom(app.mountFields.appList, k))
+//@     invariant sub-list-unchanged: forallS(k, (indom(subApp.mountFields.appList, k) <==> old(indom(subApp.mountFields.appList, k))) && subApp.mountFields.appList[k] == old(subApp.mountFields.appList[k]))
+//@     invariant seen-are-listed-in-sub: forallS(k, seen(k) ==> indom(subApp.mountFields.appList, k))
+//@   atcall (*App).register: whole-subtree-registered: (last(@utils.TrimRight) == "" ==> subtreeListed(app, "/")) && (last(@utils.TrimRight) != "" ==> subtreeListed(app, last(@utils.TrimRight)))
+//@   atcall (*App).register: nothing-dropped: forallS(k, old(indom(app.mountFields.appList, k)) ==> indom(app.mountFields.appList, k))
+
+// Mounting below a group: the same, relative to the group prefix, into the list of the group's app.
+//@ func (*Group).mount
+//@   panics
+//@   requires separate-lists: grp.app != nil && grp.app.mountFields != nil && grp.app.mountFields.appList != nil && subApp.mountFields != nil && subApp.mountFields.appList != nil && grp.app.mountFields.appList != subApp.mountFields.appList
+//@   requires joined-prefixes-distinct: forallS(a, forallS(b, indom(subApp.mountFields.appList, a) && indom(subApp.mountFields.appList, b) && a != b ==> forallS(p, joinedPath(p, a) != joinedPath(p, b))))
+//@   loop 1
+//@     invariant registered-so-far: (last(@utils.TrimRight) == "" ==> seenListed(grp.app, "/")) && (last(@utils.TrimRight) != "" ==> seenListed(grp.app, last(@utils.TrimRight)))
+//@     invariant nothing-dropped: forallS(k, old(indom(grp.app.mountFields.appList, k)) ==> indom(grp.app.mountFields.appList, k))
+//@     invariant sub-list-unchanged: forallS(k, (indom(subApp.mountFields.appList, k) <==> old(indom(subApp.mountFields.appList, k))) && subApp.mountFields.appList[k] == old(subApp.mountFields.appList[k]))
+//@     invariant seen-are-listed-in-sub: forallS(k, seen(k) ==> indom(subApp.mountFields.appList, k))
+//@   atcall (*App).register: whole-subtree-registered: (last(@utils.TrimRight) == "" ==> subtreeListed(grp.app, "/")) && (last(@utils.TrimRight) != "" ==> subtreeListed(grp.app, last(@utils.TrimRight)))
+//@   atcall (*App).register: nothing-dropped: forallS(k, old(indom(grp.app.mountFields.appList, k)) ==> indom(grp.app.mountFields.appList, k))
+
+// Start-up completion of the list for sub-apps that mounted further apps after they were mounted themselves:
+// entries are only ADDED (under prefixes that are still free); an existing entry is never dropped or replaced,
+// so what ErrorHandler sees for a prefix does not depend on the order in which the lists are walked.
+//@ func (*App).appendSubAppLists
+//@   requires list-made: app.mountFields != nil && app.mountFields.appList != nil
+// (frame: the map-of-apps heaps; E_string is the backing array of the variadic argument of the recursive call)
+//@   modifies heap(MD_string_p_fiber_App), heap(MV_string_p_fiber_App), heap(E_string)
+//@   loop 1
+//@     invariant existing-entries-kept: forallS(k, old(indom(app.mountFields.appList, k)) ==> indom(app.mountFields.appList, k) && app.mountFields.appList[k] == old(app.mountFields.appList[k]))
+//@   ensures existing-entries-kept: forallS(k, old(indom(app.mountFields.appList, k)) ==> indom(app.mountFields.appList, k) && app.mountFields.appList[k] == old(app.mountFields.appList[k]))
